@@ -87,6 +87,8 @@ def cases(rng, tier):
             # all cold, few distinct instants: the event ORDER is derived in Lean from the timelines (tlEvents) and compared too
             c["srcs"] = [{"mode": "cold", "msgs": cc.gen_timeline(rng, j, maxn=4, span=15)} for j in range(k)]
             c["dispose"] = None
+        if not is_phased(c):
+            cc.add_duplicate(rng, c["srcs"])      # the same observable object listed twice
         yield c
 
 
@@ -129,7 +131,7 @@ def _run_impl(case):
     op = case["op"]
 
     def build():
-        srcs = [cc.make_src(w, j, s) for j, s in enumerate(case["srcs"])]
+        srcs = cc.build_sources(w, case["srcs"], 0, sub_order(case))
         if op == "zip":
             return rx.zip(*srcs)
         if op == "combine_latest":
@@ -406,6 +408,8 @@ def bucket(case, out):
         yield "phased_subscribe_loop"
     if has_timelines(case):
         yield "event_order_from_timelines"
+    if any("same_as" in s_ for s_ in case["srcs"]):
+        yield "same_object_listed_twice"
     for s in case["srcs"]:
         yield "src=" + s["mode"] + ("-rude" if s.get("rude") else "")
 
